@@ -107,9 +107,22 @@ def rule_inherit(ctx, py, R="C04.INHERIT"):
     f = py.fn("value_processing.retrive_units_system_from_dict")
     found = []
 
+    from .. import pysym
+    ldefs = pysym.local_defs(f)
+
     class C(pya.PyFacts):
         def ret(self, s, cfg):
-            found.append((pyfe.src(s.src.value), cfg))
+            v = s.src.value
+            tbl = v.value if isinstance(v, ast.Subscript) else (v.func.value if isinstance(v, ast.Call) and isinstance(
+                v.func, ast.Attribute) and v.func.attr == "get" else None)
+            if isinstance(tbl, ast.Name) and isinstance(ldefs.get(tbl.id), ast.Dict):
+                # a lookup table {"default": UnitsSystem(), "inherit": parent}[v] is the if-chain on v == key
+                key = pyfe.src(v.slice if isinstance(v, ast.Subscript) else v.args[0])
+                d_ = ldefs[tbl.id]
+                for k_, val in zip(d_.keys, d_.values):
+                    found.append((pyfe.src(val), frozenset(cfg) | {("%s == %s" % (key, pyfe.src(k_)), True)}))
+                return
+            found.append((pyfe.src(v), cfg))
     from .. import ir
     ir.Engine(C(), "must").run(ir.py_to_ir(f.body))
     got = {}
